@@ -46,6 +46,9 @@
 (*    visible children of a dot-named folder are, with the dot component   *)
 (*    in their path (the walk callback returns nil, not SkipDir);          *)
 (*  - a folder header answered with 1 or 2 sends nothing;                  *)
+(*  - a partial file (the leftover of an interrupted upload) and an entry   *)
+(*    a user named x.incomplete are ordinary visible entries for a         *)
+(*    download: announced and sent under their on-disk name;               *)
 (*  - when a complete file and a partial one exist for the same name the   *)
 (*    code resumes; such states are outside the generated scripts.         *)
 (***************************************************************************)
@@ -187,6 +190,10 @@ UpItemOK(s) ==
   IN /\ ph = "up" /\ left > 0 /\ p # <<>>
      /\ (Len(p) > 1 => DirNode(Front(p)) \in disk)
      /\ s.kind \in {"dir", "file"}
+     \* the server keeps the partial data of x under the name x.incomplete: an item whose own name is taken by
+     \* another entry's partial data, or (file) whose partial-data name is another entry, is outside the model
+     /\ \A n \in disk : n.path # p => /\ DiskPath(n) # p
+                                     /\ (s.kind = "file" => DiskPath(n) # Front(p) \o <<Last(p) \o IncSfx>>)
      /\ IF s.kind = "dir"
           THEN (\A n \in At(p) : n.kind = "dir") /\ s.cut = -1
           ELSE /\ \A n \in At(p) : n.kind = "file"
